@@ -60,7 +60,16 @@ func (c *vfClient) attachState() map[string]bool {
 			if topic == "" {
 				topic = topicOf[id]
 			}
-			att[topic] = true
+			// a {sub} whose resulting mode (reported in params.acs) lacks J is acknowledged but does not attach
+			joined := true
+			if acs, ok := f.params()["acs"].(map[string]any); ok {
+				if m, ok := acs["mode"].(string); ok && !strings.Contains(m, "J") {
+					joined = false
+				}
+			}
+			if joined {
+				att[topic] = true
+			}
 		case id != "" && kindOf[id] == "leave" && code >= 200 && code < 300:
 			if topic == "" {
 				topic = topicOf[id]
